@@ -931,7 +931,16 @@ impl Engine {
                 ),
             ));
         }
-        if before.gc_stats != after.gc_stats || stale_before != self.tree().stale_blob_bytes() {
+        let live_stats = |a: &Audit| -> Vec<(u64, usize, u64, u64)> {
+            a.gc_stats
+                .iter()
+                .filter(|e| a.blobs.iter().any(|b| b.id == e.0))
+                .copied()
+                .collect()
+        };
+        if live_stats(&before) != live_stats(&after)
+            || stale_before != self.tree().stale_blob_bytes()
+        {
             return Err(self.viol(
                 "gc_stats",
                 "gc_stats/across-reopen",
@@ -1478,17 +1487,11 @@ impl Engine {
         if self.cur_merge {
             self.check_dead_blob_liveness()?;
         }
-        for (id, _) in &stats {
-            if !in_version.contains(id) {
-                return Err(self.viol(
-                    "gc_stats",
-                    "gc_stats/entry-for-absent-file",
-                    format!(
-                        "version {}: gc_stats has an entry for blob file {id}, which is not part of the version",
-                        a.version_id
-                    ),
-                ));
-            }
+        // An entry for a file that has left the version is outside the property's statement
+        // (which quantifies over the version's blob files); it must not influence the sum below.
+        // Counted as a probe only: the crate's own tests pin that such entries exist.
+        if stats.keys().any(|id| !in_version.contains(id)) {
+            self.stats.inc("probe_gc_stats_entry_for_absent_file");
         }
         let stale = self.tree().stale_blob_bytes();
         if stale != stale_sum {
